@@ -443,6 +443,12 @@ func (r *run) genDoc() {
 	for i := 0; i < nW; i++ {
 		w := mWay{id: int64(i + 1), tags: r.genTags()}
 		k := 1 + t.Choose(5, "way-len")
+		if t.OneIn(10, "empty-way") {
+			// a way without any <nd> (redacted or broken ways): legal input,
+			// stored only as somebody's dependency and requesting no node
+			k = 0
+			r.res.Probe("way-without-nodes")
+		}
 		if chain && nN >= 2 {
 			// way i links node i+1 and i+2: with KeepBounds the selection spreads along the chain
 			a := int64(1 + i%nN)
